@@ -906,7 +906,7 @@ func chainRule(c *core.Ctx) {
 
 type packLoop struct {
 	l       *prover.Loop
-	remain  *ssa.Phi
+	remain  ssa.Value
 	branchR map[*ssa.BasicBlock]int64 // block that is the true side of `remain >= r`
 }
 
@@ -914,6 +914,7 @@ type packLoop struct {
 func findPackLoop(p *prover.F) *packLoop {
 	for _, l := range p.Loops() {
 		pl := &packLoop{l: l, branchR: map[*ssa.BasicBlock]int64{}}
+		var last2 *ssa.BasicBlock
 		for b := range l.Blocks {
 			ifi, ok := b.Instrs[len(b.Instrs)-1].(*ssa.If)
 			if !ok {
@@ -923,16 +924,55 @@ func findPackLoop(p *prover.F) *packLoop {
 			if !ok || bo.Op != token.GEQ {
 				continue
 			}
-			ph, ok := bo.X.(*ssa.Phi)
-			if !ok || ph.Block() != l.Header {
+			// the count of remaining units: a header phi, or `len(buf) - cursor` computed inside the loop
+			var rem ssa.Value
+			if ph, isPhi := bo.X.(*ssa.Phi); isPhi && ph.Block() == l.Header {
+				rem = ph
+			} else if sub, isSub := bo.X.(*ssa.BinOp); isSub && sub.Op == token.SUB && l.Blocks[sub.Block()] {
+				if cur, isCur := sub.Y.(*ssa.Phi); isCur && cur.Block() == l.Header {
+					if call, isC := sub.X.(*ssa.Call); isC {
+						if bi, isB := call.Call.Value.(*ssa.Builtin); isB && bi.Name() == "len" {
+							rem = sub
+						}
+					}
+				}
+			}
+			if rem == nil {
 				continue
 			}
 			r, ok := constInt(bo.Y)
 			if !ok {
 				continue
 			}
-			pl.remain = ph
+			if pl.remain != nil && pl.remain != rem {
+				continue
+			}
+			pl.remain = rem
 			pl.branchR[b.Succs[0]] = r
+			if r == 2 {
+				last2 = b
+			}
+		}
+		// `default:` for the last unit: the false side of `remain >= 2` is the branch for one unit when the loop runs
+		// only while units remain (cursor < len(buf))
+		if _, has := pl.branchR[nil]; !has && len(pl.branchR) == 6 && last2 != nil {
+			has1 := false
+			for _, r := range pl.branchR {
+				if r == 1 {
+					has1 = true
+				}
+			}
+			if hif, isIf := l.Header.Instrs[len(l.Header.Instrs)-1].(*ssa.If); isIf && !has1 {
+				if cmp, isCmp := hif.Cond.(*ssa.BinOp); isCmp && cmp.Op == token.LSS && l.Blocks[l.Header.Succs[0]] {
+					if sub, isSub := pl.remain.(*ssa.BinOp); isSub && cmp.X == sub.Y {
+						if lc, isC := cmp.Y.(*ssa.Call); isC {
+							if rc, isRC := sub.X.(*ssa.Call); isRC && len(lc.Call.Args) == 1 && len(rc.Call.Args) == 1 && lc.Call.Args[0] == rc.Call.Args[0] {
+								pl.branchR[last2.Succs[1]] = 1
+							}
+						}
+					}
+				}
+			}
 		}
 		if len(pl.branchR) >= 7 {
 			return pl
